@@ -230,7 +230,41 @@ def build_harness(pid, hcfg, tag=""):
         return exe, None
 
 
-def run_harness(exe, pkg, test, seed, tier, out_path, replay=None, scale=None, timeout=1800, extra_env=None):
+def _file_sha(path):
+    hsh = hashlib.sha256()
+    with open(path, "rb") as f:
+        for blk in iter(lambda: f.read(1 << 20), b""):
+            hsh.update(blk)
+    return hsh.hexdigest()
+
+
+def run_harness(exe, pkg, test, seed, tier, out_path, replay=None, scale=None, timeout=1800, extra_env=None, cache=False):
+    """Run the harness test binary. With cache=True the output of an identical binary (same sha256, i.e. same
+    /repo tree and harness sources) for the same test/seed/tier/scale is reused: the hub properties share one run."""
+    cpath = None
+    if cache and not replay:
+        cdir = os.path.join(BUILD, "cache")
+        os.makedirs(cdir, exist_ok=True)
+        cpath = os.path.join(cdir, "%s_%s_%s_%s_%s.jsonl" % (_file_sha(exe)[:24], test, seed, tier, scale or 0))
+        if os.path.exists(cpath):
+            cases = [json.loads(l) for l in open(cpath) if l.strip()]
+            if cases:
+                return 0, "(cached harness output of an identical test binary: %s)" % os.path.basename(cpath), cases
+    rc, out, cases = _run_harness(exe, pkg, test, seed, tier, out_path, replay, scale, timeout, extra_env)
+    if cpath and rc == 0 and cases:
+        tmpc = cpath + ".%d" % os.getpid()
+        with open(tmpc, "w") as f:
+            for c in cases:
+                f.write(json.dumps(c) + "\n")
+        os.replace(tmpc, cpath)
+        # keep the cache small
+        old = sorted(glob.glob(os.path.join(BUILD, "cache", "*.jsonl")), key=os.path.getmtime)
+        for o in old[:-40]:
+            os.remove(o)
+    return rc, out, cases
+
+
+def _run_harness(exe, pkg, test, seed, tier, out_path, replay=None, scale=None, timeout=1800, extra_env=None):
     env = dict(os.environ, VERIF_SEED=str(seed), VERIF_TIER=tier, VERIF_OUT=out_path)
     env.pop("VERIF_REPLAY", None)
     env.pop("VERIF_SCALE", None)
@@ -491,7 +525,9 @@ def main():
                     c.setdefault("tags", []).append("corpus")
                 cases += ccases
             rc, harness_log, gcases = run_harness(exe, hcfg["pkg"], hcfg["test"], seed, tier, tmp + ".jsonl",
-                                                  timeout=hcfg.get("timeout", 1800))
+                                                  timeout=hcfg.get("timeout", 1800), cache=bool(hcfg.get("cache")))
+            if harness_log.startswith("(cached"):
+                notes.append(harness_log)
             cases += gcases
             for xi, (xexe, xh) in enumerate(harnesses[1:], 1):
                 xrc, xlog, xcases = run_harness(xexe, xh["pkg"], xh["test"], seed, tier, tmp + ".x%d.jsonl" % xi,
@@ -534,6 +570,7 @@ def main():
     spec_issues = [i for i in issues if i["kind"] == "spec"]
     diff_issues = [i for i in issues if i["kind"] == "diff"]
     handled_cases = set()
+    unconfirmed = []
     budget_end = time.time() + (120 if tier == "quick" else 600)
     for iss in spec_issues + diff_issues:
         if iss["case"] in handled_cases:
@@ -547,6 +584,13 @@ def main():
         if exe and iss.get("why") != "violated:process-died" and not cfg.get("no_shrink"):
             s2, i2, c2 = shrink(cfg, pid, harnesses[hidx][0], harnesses[hidx][1], ops, iss["kind"], tmp,
                                 budget_s=40 if tier == "quick" else 120)
+            if i2 is None and harnesses[hidx][1].get("confirm"):
+                # timing-sensitive harness: a difference only counts if it shows again on re-execution
+                s2, i2, c2 = shrink(cfg, pid, harnesses[hidx][0], harnesses[hidx][1], ops, iss["kind"], tmp, budget_s=20)
+                if i2 is None:
+                    notes.append(dict(not_reproduced=dict(kind=iss["kind"], why=iss["why"], step=iss["step"], n_ops=len(ops))))
+                    unconfirmed.append(iss)
+                    continue
             if i2 is not None:
                 sops, sissue, scase = s2, i2, c2
         if sissue["kind"] == "spec":
@@ -640,6 +684,8 @@ def main():
             source_sha256={k: v for k, v in st["files"].items()},
             known_findings_reproduced=sorted(known_hit.keys()),
             leanchecker=pr.get("leanchecker_rc"),
+            notes=[n for n in notes if isinstance(n, str)][:5],
+            unconfirmed_differences=len(unconfirmed),
         ),
         assumptions=cfg.get("assumptions", []),
         wall_s=round(time.time() - t_start, 1),
